@@ -9,16 +9,18 @@
 // constant evaluation.
 package verifbounds
 
-// Exprs maps package path -> allocbound expression text -> value of that expression.
-var Exprs = map[string]map[string]int{}
+// Exprs maps package path -> allocbound expression text -> thunk evaluating that expression.
+// (Thunks, because config/bounds variables are assigned by package config's init(), which may
+// run after the registering package's init().)
+var Exprs = map[string]map[string]func() int{}
 
 // Directives maps package path -> type name -> the text of its //msgp:allocbound directive.
 var Directives = map[string]map[string]string{}
 
 // Reg registers the evaluated expressions of one package.
-func Reg(pkg string, m map[string]int) {
+func Reg(pkg string, m map[string]func() int) {
 	if Exprs[pkg] == nil {
-		Exprs[pkg] = map[string]int{}
+		Exprs[pkg] = map[string]func() int{}
 	}
 	for k, v := range m {
 		Exprs[pkg][k] = v
